@@ -2,6 +2,7 @@ package rtcheck
 
 import (
 	"fmt"
+	"math"
 	"reflect"
 	"sort"
 	"strings"
@@ -421,6 +422,88 @@ func c10maps(acc *c10acc) {
 	}
 }
 
+// ---- maps whose keys are not equal to themselves (NaN) or are structs / arrays / pointers
+func c10mapsExotic(acc *c10acc) {
+	nan := math.NaN()
+	type sk struct {
+		F float64
+		S string
+	}
+	x, y := 1, 2
+	check := func(key string, native, got []kv, p any) {
+		acc.inputs++
+		acc.steps += len(got) + 1
+		if p != nil {
+			acc.fail("map-range", key, "iterator panics", map[string]any{"panic": fmt.Sprint(p)})
+			return
+		}
+		if !reflect.DeepEqual(sortPairs(native), sortPairs(got)) {
+			acc.fail("map-range", key, "entries differ from the native range (as multisets)", map[string]any{"native": sortPairs(native), "iter": sortPairs(got)})
+		}
+	}
+	guard := func(f func()) (p any) {
+		defer func() { p = recover() }()
+		f()
+		return nil
+	}
+	{
+		for _, m := range []map[float64]int{{nan: 1}, {nan: 1, math.NaN(): 2}, {nan: 1, 0: 2, math.Inf(1): 3}, {math.Copysign(0, -1): 1}} {
+			var native, got []kv
+			for k, v := range m {
+				native = append(native, kv{fmt.Sprint(k), v})
+			}
+			p := guard(func() {
+				it := seq.NewMapIter(m)
+				for it.MoveNext() {
+					got = append(got, kv{fmt.Sprint(it.Current().Key), it.Current().Val})
+				}
+			})
+			check(fmt.Sprintf("map[float64]int%v", sortPairs(native)), native, got, p)
+		}
+	}
+	{
+		m := map[sk]int{{nan, "a"}: 1, {1, "b"}: 2, {nan, "a"}: 3}
+		var native, got []kv
+		for k, v := range m {
+			native = append(native, kv{fmt.Sprint(k), v})
+		}
+		p := guard(func() {
+			it := seq.NewMapIter(m)
+			for it.MoveNext() {
+				got = append(got, kv{fmt.Sprint(it.Current().Key), it.Current().Val})
+			}
+		})
+		check("map[struct{float64,string}]int with NaN fields", native, got, p)
+	}
+	{
+		m := map[any]int{nan: 1, [2]float64{nan, 0}: 2, "s": 3, &x: 4, &y: 5, complex(nan, 0): 6}
+		var native, got []kv
+		for k, v := range m {
+			native = append(native, kv{fmt.Sprintf("%T", k), v})
+		}
+		p := guard(func() {
+			it := seq.NewMapIter(m)
+			for it.MoveNext() {
+				got = append(got, kv{fmt.Sprintf("%T", it.Current().Key), it.Current().Val})
+			}
+		})
+		check("map[any]int with NaN, array-of-NaN, pointer and complex keys", native, got, p)
+	}
+	{
+		// live value reads: a value updated before its entry is reached is seen updated (single other entry => deterministic)
+		m := map[int]*int{1: &x}
+		var got []kv
+		it := seq.NewMapIter(m)
+		x = 10
+		for it.MoveNext() {
+			got = append(got, kv{it.Current().Key, *it.Current().Val})
+		}
+		x = 1
+		check("map[int]*int value updated before iteration", []kv{{1, 10}}, got, nil)
+	}
+	acc.samples = append(acc.samples, map[string]any{"kind": "map-exotic", "input": "NaN keys (float64, struct field, array element, boxed in any, complex), -0, +Inf, pointer keys"})
+}
+
 // ---- channels
 func c10chans(acc *c10acc) {
 	vals := []int{0, 1, 2}
@@ -484,8 +567,8 @@ func C10(tier string) *core.Report {
 	if tier == "thorough" {
 		strLen, sliceLen, scriptLen = 6, 5, 5
 	}
-	accs := make([]c10acc, 5)
-	parallel(5, func(i int) {
+	accs := make([]c10acc, 6)
+	parallel(6, func(i int) {
 		switch i {
 		case 0:
 			c10strings(strLen, &accs[0])
@@ -497,9 +580,11 @@ func C10(tier string) *core.Report {
 			c10maps(&accs[3])
 		case 4:
 			c10chans(&accs[4])
+		case 5:
+			c10mapsExotic(&accs[5])
 		}
 	})
-	names := []string{"strings", "ints", "slices", "maps", "chans"}
+	names := []string{"strings", "ints", "slices", "maps", "chans", "maps-exotic"}
 	per := map[string]int{}
 	for i, a := range accs {
 		r.Add("states", a.inputs)
